@@ -53,6 +53,11 @@ def run(prop, tier, seed):
     n = 330 if quick else 8000
     d = C.scratch_dir("c13")
     jobs = []
+    for i, (tag, prog, _) in enumerate(G.boundary_programs()):
+        for sub in (["run0", "run1", "run2"] if quick else ["run0", "run1", "run2", "check"]):
+            if quick and (i + len(sub)) % 2 and sub != "run0":
+                continue
+            jobs.append(("boundary", "b%d_%s.hyeong" % (i, sub), prog.encode("utf-8"), False, sub, b""))
     for k in range(n):
         r = rng.random()
         kind = "prog" if r < 0.35 else "noise" if r < 0.45 else "unstructured" if r < 0.55 else "empty" if r < 0.58 else "badutf8" if r < 0.8 else "reader"
